@@ -192,7 +192,18 @@ func TestStreamApp(t *testing.T) {
 				mu.Unlock()
 				return nil
 			}, func(err error) error { return err })
-			go f.Run()
+			crashed := ""
+			go func() { // a panic of the face's reader is an outcome, not a harness failure
+				defer func() {
+					if r := recover(); r != nil {
+						mu.Lock()
+						crashed = "PANIC"
+						mu.Unlock()
+						go io.Copy(io.Discard, b) // keep the writer from blocking
+					}
+				}()
+				f.Run()
+			}()
 			w.Emit(map[string]any{"ev": "Reset", "blocks": blocks, "mode": "app"})
 			off, bi := 0, 0
 			for off < len(data) {
@@ -226,7 +237,9 @@ func TestStreamApp(t *testing.T) {
 				mu.Unlock()
 				total++
 			}
-			w.Emit(map[string]any{"ev": "eof", "err": ""})
+			mu.Lock()
+			w.Emit(map[string]any{"ev": "eof", "err": crashed})
+			mu.Unlock()
 			total++
 			a.Close()
 			synctest.Wait()
